@@ -21,7 +21,10 @@ RULE = ("every sequence of length <= L (3 quick / 4 thorough) over a menu on pid
         "PidRefsAlreadyExistsError} (a mismatch error is also accepted when the attempt carries wrong validation "
         "data), directory abstraction identical before/after except for a new unreferenced object holding the "
         "rejected new content, bound pid still retrievable with its bytes; re-binding succeeds only after a "
-        "completed delete_object. distinct_nontrivial = distinct (model state before, attempt shape, outcome).")
+        "completed delete_object. (b) under the cooperative scheduler: triples of two calls binding ONE pid (store/tag "
+        "to the same or different cids) and a call on another pid, all schedules with <= 1 preemption (bounded) + "
+        "random walks + PCT; exactly the sequential outcomes are allowed (one binder wins, the other is rejected). "
+        "distinct_nontrivial = distinct (model state before, attempt shape, outcome).")
 ASSUMPTIONS = ["the model decides which calls are re-bind attempts"]
 
 PIDS = ["p", "pq", "q"]
@@ -45,11 +48,31 @@ def shards(tier, seed):
     nrand = 320 if tier == "quick" else 8000
     for s in split_seeds(seed * 1000 + 3, n):
         out.append(("rand", nrand // n, None, s))
+    # (b) the same guarantee under controlled interleavings: two calls that try to bind ONE pid (to the same or to
+    # different cids) + one call on another pid that shares a lock/condition with them
+    from .. import concprops as P
+    from .. import concengine as C
+    scns = []
+    binders = [P.st("p1", "X"), P.st("p1", "Y"), P.tag("p1", "X"), P.tag("p1", "Y")]
+    others = [P.tag("p2", "X"), P.st("p2", "Y"), P.dele("p2"), P.tag("p3", "Y")]
+    for sname in ("empty", "X-unreferenced", "p1,p2->X"):
+        for i, a in enumerate(binders):
+            for b in binders[i:]:
+                for o in others:
+                    scns.append(C.Scenario(f"{sname}|{P.call_name(a)}||{P.call_name(b)}||{P.call_name(o)}",
+                                           P.OBJECT_STARTS[sname], [a, b, o], P.SPEC, pids=["p1", "p2", "p3"],
+                                           start_class=sname).to_json())
+    rng = random.Random(seed * 1000 + 33)
+    rng.shuffle(scns)
+    if tier == "quick":
+        scns = scns[:64]
+    for c, s in zip(chunk(scns, n), split_seeds(seed + 303, n)):
+        out.append(("conc", c, tier, s))
     return out
 
 
 def min_required(tier):
-    return {"rebind_attempts": 3000, "rebinds_after_delete": 100}
+    return {"rebind_attempts": 3000, "rebinds_after_delete": 100, "concurrent_binder_schedules": 2000}
 
 
 def run_seq(pool, ops, res):
@@ -92,7 +115,17 @@ def run_seq(pool, ops, res):
             return
 
 
+CONC_SYMPTOMS = {"outcome-not-sequential", "state-not-sequential"}
+
+
 def run_shard(mode, n, firsts, sub_seed):
+    if mode == "conc":
+        from .. import concprops as P
+        tier = firsts
+        res = P.run_scenarios(n, 1, 12 if tier == "quick" else 60, 12 if tier == "quick" else 80, sub_seed,
+                              CONC_SYMPTOMS, budget=60 if tier == "quick" else 1500)
+        res.count("concurrent_binder_schedules", res.counters.get("schedules", 0))
+        return res
     res = ShardResult()
     scratch = new_scratch("c03")
     contents = {k: make_content(v["cseed"], v["size"]) for k, v in SPEC.items()}
@@ -141,4 +174,7 @@ def run_shard(mode, n, firsts, sub_seed):
 
 
 def replay(witness):
+    if witness.get("engine") == "conc":
+        from .. import concprops as P
+        return P.replay_witness(witness, CONC_SYMPTOMS)
     return seq_replay(witness, lambda f: f.tag == "outcome" or f.tag.startswith("state:"))
